@@ -269,6 +269,8 @@ def do_edit(rng, mid):
             names += ['msg.time=float', 'insert-realtime', 'fix-unstorable', 'fix-unstorable']
             names += ['append-same-object', 'track*2', 'track+track', 'append-same-object']
         names += ['track+=', 'track+=', 'append-after-end_of_track']
+        if any(len(t) for t in tracks):
+            names += ['edit-through-a-view', 'edit-through-a-view']
     if rng.random() < 0.03:
         names = ['tracks.clear']
     if rng.random() < 0.08:
@@ -423,6 +425,43 @@ def do_edit(rng, mid):
         m.time = v
         if not (type(m.time) is type(v) and m.time == v):
             return f'msg.time={v!r} HAD NO EFFECT (time is {m.time!r})'
+    elif e == 'edit-through-a-view':
+        # the messages reached another way than by index: a slice of the track, a reversed() or sorted() view, a plain
+        # list() of it - all of these hold the track's own message objects (copy(), + and * are left out: whether those
+        # share the messages is not what this property is about)
+        tr = rng.choice(ne)
+        how = rng.choice(('slice', 'slice-step', 'reversed', 'sorted', 'list()', 'iter', 'tracks-slice', 'slice'))
+        a = rng.randrange(len(tr))
+        b = rng.randrange(a, len(tr)) + 1
+        if how == 'slice':
+            view = tr[a:b]
+        elif how == 'slice-step':
+            view = tr[a::2]
+        elif how == 'reversed':
+            view = list(reversed(tr))
+        elif how == 'sorted':
+            view = sorted(tr, key=lambda m: m.time)
+        elif how == 'copy()':
+            view = tr.copy() if hasattr(tr, 'copy') else list(tr)
+        elif how == 'list()':
+            view = list(tr)
+        elif how == 'track*1':
+            view = tr * 1
+        elif how == 'track+[]':
+            view = tr + []
+        elif how == 'tracks-slice':
+            view = [m for t in mid.tracks[:] for m in t]
+        else:
+            view = [m for m in tr]
+        if not view:
+            return e
+        m = view[rng.randrange(len(view))]
+        v = m.time + 3 if isinstance(m.time, int) else 5
+        m.time = v
+        hits = [x for t in mid.tracks for x in t if x is m]
+        if not hits or any(type(x.time) is not type(v) or x.time != v for x in hits):
+            return f'edit through {how} HAD NO EFFECT ON THE FILE (the view holds other objects than the track)'
+        return e + ':' + how
     elif e == 'msg.attr=':
         tr = rng.choice(ne)
         m = rng.choice(tr)
